@@ -3,8 +3,14 @@
 stdin : {"what": "trace"|"oracle"|"probe", "mode": {...}, "build": dir, "cases": [[op, ...], ...]}
 stdout: JSON, one entry per case.
 
-trace : replays every operation sequence on a fresh Card(model, template=None) and emits, after EVERY
-        operation, the canonical observation that coq/card/Show.v computes for the model:
+trace : replays every operation sequence on a fresh card and emits, after EVERY operation, the canonical observation
+        that coq/card/Show.v computes for the model.  The first element of a sequence may be the pseudo-operation
+        ["init", template, model_diagram, params, html, real] (template: None | str | {"map": [[key, content], ...]};
+        model_diagram: bool | str; params / html: what the stub's get_params(deep=True) / estimator_html_repr return while
+        the constructor runs; real: name of a real estimator instead of the stub): the card is then
+        Card(model, template=..., model_diagram=...) and step 0 observes the constructor's outcome and the new card.
+        Without it the card is Card(model, template=None, model_diagram=False) (norm_seq inserts that init).
+        Observed per step:
         outcome class, get_toc(), render(), bytes written by save(), every live node (walked through
         the dicts) with select(<path string>) and format(), and the metrics dict.
         PrettyTable is observed, not replaced: a recording subclass notes (field names, cells) -> text.
@@ -146,6 +152,11 @@ def model_op(op):
     """The operation as the Coq model receives it: every value already turned into its str() text.
     Call it AFTER apply_op: a "realplot" becomes a "modelplot" with the HTML text the implementation received."""
     kind = op[0]
+    if kind == "init":
+        # what the constructor got from its two oracles (a real estimator: recorded by construct)
+        if op[5]:
+            return ["init", op[1], op[2], INIT_SEEN["params"], INIT_SEEN["html"], None]
+        return ["init", op[1], op[2], [[k, str(v)] for k, v in op[3]], op[4], None]
     if kind == "realplot":
         return ["modelplot", op[1], op[2], HTML["seen"] if HTML["seen"] is not None else ""]
     if kind == "table":
@@ -186,11 +197,14 @@ def apply_op(card, op):
                 HTML["next"] = None
         elif kind == "realplot":
             HTML["next"], HTML["seen"] = None, None
+            # get_model() caches the loaded model (cached_property _model): drop the cache around the swap
             stub, card.model = card.model, real_estimator(op[3])
+            card.__dict__.pop("_model", None)
             try:
                 card.add_model_plot(section=op[1], description=op[2])
             finally:
                 card.model = stub
+                card.__dict__.pop("_model", None)
         elif kind == "select":
             sel = card.select(op[1])
         elif kind == "chain":
@@ -305,15 +319,64 @@ def show_state(card, mode, build):
     return out
 
 
-def new_card():
+INIT_DEFAULT = ["init", None, False, [], "", None]
+INIT_SEEN = {"params": [], "html": ""}
+
+
+def norm_seq(ops):
+    """every sequence starts with an init pseudo-operation of full length"""
+    ops = [list(o) for o in ops]
+    if ops and ops[0][0] == "init":
+        ops[0] = ops[0] + INIT_DEFAULT[len(ops[0]):]
+        return ops
+    return [list(INIT_DEFAULT)] + ops
+
+
+def template_arg(spec):
+    if spec is None or isinstance(spec, str):
+        return spec
+    return dict(spec["map"])          # a Mapping: section key -> content, in the listed order
+
+
+def construct(init):
+    """Card(model, template=..., model_diagram=...): (class of outcome, the card or None)."""
     from skops.card import Card
-    return Card(StubModel(), template=None)
+    _, tspec, dspec, params, html, real = init
+    if real:
+        model = real_estimator(real)
+        INIT_SEEN["params"] = [[k, str(v)] for k, v in model.get_params(deep=True).items()]
+        HTML["next"], HTML["seen"] = None, None
+    else:
+        model = StubModel()
+        model.params = dict(params)
+        HTML["next"], HTML["seen"] = html, None
+    try:
+        card = Card(model, template=template_arg(tspec), model_diagram=dspec)
+    except KeyError:
+        return "KeyError", None
+    except TypeError:
+        return "TypeError", None
+    except ValueError:
+        return "ValueError", None
+    except Exception:
+        return "other", None
+    finally:
+        HTML["next"] = None
+        INIT_SEEN["html"] = HTML["seen"] if HTML["seen"] is not None else ""
+    if real:
+        # later operations drive a stub (hyper sets its params); the constructor has cached the real estimator
+        card.model = StubModel()
+        card.__dict__.pop("_model", None)
+    return "ok", card
 
 
 def trace_case(ops, mode, build):
     del RECORDED[:]
-    card = new_card()
-    expected, mops, classes = [], [], []
+    ops = norm_seq(ops)
+    cls0, card = construct(ops[0])
+    expected, mops, classes = [U + 7] + cps(cls0), [model_op(ops[0])], [cls0]
+    if card is not None:
+        expected += show_state(card, mode, build)
     oracle = {}
 
     def note(h, c, out):
@@ -322,7 +385,7 @@ def trace_case(ops, mode, build):
             raise RuntimeError(f"PrettyTable is not a function of its inputs: {key!r}")
         oracle[key] = out
 
-    for op in ops:
+    for op in (ops[1:] if card is not None else []):      # the constructor raised: there is no card to operate on
         cls, sel = apply_op(card, op)
         mo = model_op(op)
         mops.append(mo)
@@ -375,7 +438,7 @@ def dfcheck(seed, n):
         key = rnd.choice(["T", "A/B", "x y/T\\/U"])
 
         def render(table):
-            c = Card(StubModel(), template=None)
+            c = Card(StubModel(), template=None, model_diagram=False)
             c.add_table(**{key: table})
             return c.render()
         try:
@@ -424,7 +487,7 @@ def main():
         res = [trace_case(ops, req["mode"], req["build"]) for ops in req["cases"]]
     elif what == "oracle":
         import card_spec
-        res = [card_spec.check_sequence(ops, new_card, apply_op, req.get("build"), model_op) for ops in req["cases"]]
+        res = [card_spec.check_sequence(norm_seq(ops), construct, apply_op, req.get("build"), model_op) for ops in req["cases"]]
     elif what == "dfcheck":
         res = dfcheck(req["seed"], req["n"])
     elif what == "whitespace":
